@@ -25,6 +25,7 @@ from . import h5snap
 from .pool import scratch
 
 CONT = ("Groups", "Objects", "Data")
+SPECIAL = ("Visual Parameters", "UserComments", "file.dat")   # data children whose content is not modelled as a token
 
 
 class Divergence(Exception):
@@ -95,6 +96,8 @@ class World:
         self.closed_tree = None
         self.root_uid = self.ws.root.uid
         self.obj_class = {}
+        # data kind of the behaviour (refinement parameter, like the entity classes)
+        self.dkind = ["float", "int", "text", "bool", "float", "int"][(variant // 8) % 6]
         self.ws2 = None
         self.path2 = self.path.replace(".geoh5", "_ws2.geoh5")
         self.w2uid = {}
@@ -127,12 +130,36 @@ class World:
         self.side[int(slot)] = entity
 
     def token(self, values):
+        """value token of a data array (float / integer / boolean / text kinds; the kind is a refinement parameter)"""
         if values is None:
             return None
+        if isinstance(values, bytes):
+            return "blob"
         if isinstance(values, str):
-            return "text"
-        arr = np.asarray(values, dtype=float).ravel()
-        if arr.size == 0 or np.isnan(arr[0]):
+            values = [values]
+        arr = np.asarray(values).ravel()
+        if arr.size == 0:
+            return None
+        if arr.dtype.kind in "USO":
+            items = [x.decode("utf-8", "replace") if isinstance(x, bytes) else str(x) for x in arr.tolist()]
+            if items[0].startswith("<") or not items[0].startswith("t"):
+                return "text"
+            try:
+                tok = int(items[0][1:].split("_")[0])
+            except ValueError:
+                return f"garbled:{items}"
+            return tok if items == [f"t{tok}_{i}" for i in range(len(items))] else f"garbled:{items}"
+        if arr.dtype.kind == "b" or (self.dkind == "bool" and arr.dtype.kind in "iu" and set(arr.tolist()) <= {0, 1}):
+            flags = [bool(x) for x in arr.tolist()]
+            tok = 2 if flags[0] else 1
+            return tok if flags == [(i + tok) % 2 == 0 for i in range(len(flags))] else f"garbled:{flags}"
+        if arr.dtype.kind in "iu":
+            base = int(arr[0])
+            if arr.tolist() != [base + i for i in range(arr.size)] or base % 10:
+                return f"garbled:{arr.tolist()}"
+            return base // 10
+        arr = arr.astype(float)
+        if np.isnan(arr[0]):
             return None
         base = arr[0]
         if not np.allclose(arr, base + 0.25 * np.arange(arr.size)):
@@ -144,7 +171,14 @@ class World:
         assoc = ASSOC.get(type(o).__name__, "OBJECT")
         return {"VERTEX": getattr(o, "n_vertices", None), "CELL": getattr(o, "n_cells", None)}.get(assoc) or 2
 
-    def values(self, tok, n):
+    def values(self, tok, n, kind_=None):
+        kind_ = kind_ or self.dkind
+        if kind_ == "int":
+            return (int(tok) * 10 + np.arange(n)).astype("int32")
+        if kind_ == "text":
+            return np.array([f"t{tok}_{i}" for i in range(n)])
+        if kind_ == "bool":
+            return np.array([(i + int(tok)) % 2 == 0 for i in range(n)], dtype=bool)
         return float(tok) + 0.25 * np.arange(n)
 
     # ------------------------------------------------------------------ actions
@@ -191,12 +225,22 @@ class World:
             n = {"VERTEX": getattr(o, "n_vertices", None), "CELL": getattr(o, "n_cells", None)}.get(assoc) or 2
             spec = {"values": self.values(a["v"], n), "association": assoc}
             others = [d for s2, d in self.side.items() if kind(s2) == "D" and getattr(d, "association", None) is not None
-                      and d.name != "Visual Parameters"]
-            if self.variant % 5 == 2 and others:
+                      and d.name not in SPECIAL]
+            if self.variant % 5 == 2 and others and self.dkind == "float" and \
+                    all(np.asarray(d.values).dtype.kind == "f" for d in others[:1] if d.values is not None):
                 # join the type of an existing data set: the shared type must stay as it is
                 spec["entity_type"] = {"uid": others[0].entity_type.uid, "primitive_type": "FLOAT",
                                        "number_of_bins": 25, "units": "unit-x"}
             e = o.add_data({a["n"]: spec})
+            self.bind(a["s"], e)
+        elif act == "AddComment":
+            o = self.ent(a["p"])
+            o.add_comment(f"comment {len(o.comments.values) if o.comments is not None else 0}", author="verif")
+            if a["first"]:
+                self.bind(a["s"], o.comments)
+        elif act == "AddFile":
+            o = self.ent(a["p"])
+            e = o.add_file(b"\x00\x01binary\xffpayload", name="file.dat")
             self.bind(a["s"], e)
         elif act == "AddVisual":
             o = self.ent(a["p"])
@@ -208,7 +252,9 @@ class World:
             self.ent(a["s"]).allow_delete = bool(a["b"])
         elif act == "SetVal":
             d = self.ent(a["s"])
-            new = self.values(a["v"], self.n_values(d.parent))
+            dk = {"FloatData": "float", "IntegerData": "int", "TextData": "text", "BooleanData": "bool"}.get(
+                type(d).__name__, self.dkind)
+            new = self.values(a["v"], self.n_values(d.parent), dk)
             if self.variant % 4 and d.values is not None:   # edit the array the getter returned, in place, assign it back
                 arr = d.values
                 arr[:] = new
@@ -226,7 +272,7 @@ class World:
             n = {"VERTEX": getattr(o, "n_vertices", None), "CELL": getattr(o, "n_cells", None)}.get(assoc) or 2
             known = {id(e) for e in self.side.values()}
             try:
-                o.add_data({a["n"]: {"values": self.values(1, n), "association": assoc}}, compression=10)
+                o.add_data({a["n"]: {"values": self.values(1, n, "float"), "association": assoc}}, compression=10)
             finally:
                 new = [c for c in o.children if not _is_pg(c) and id(c) not in known]
                 if len(new) == 1:
@@ -321,6 +367,7 @@ class World:
             gc.collect()       # the schedule in which the removed copies are reclaimed before the next operation
         elif act == "Close":
             self.closed_tree = self.live_tree()
+            self.closed_dirty = {int(x) for x in pre.get("dirty", [])}
             how = a["how"]
             if how == "close":
                 ws.close()
@@ -442,6 +489,8 @@ class World:
                 if cont == "Data":
                     ds = node["datasets"].get("Data")
                     val = self.token(ds.get("value")) if ds else None
+                    if node["attrs"].get("Name") in SPECIAL:
+                        val = "vp"
                 par = parent.get(uid, [])
                 out[str(y)] = {"on": True, "par": par[0] if len(par) == 1 else par, "name": node["attrs"].get("Name"),
                                "flag": bool(node["attrs"].get("Allow delete")), "val": val}
@@ -485,7 +534,7 @@ class World:
         if self.closed_tree is not None:
             now = self.live_tree()
             if now != self.closed_tree:
-                raise Divergence("reopen-differs-from-live",
+                raise Divergence(_reopen_signature(self.closed_tree, now, getattr(self, "closed_dirty", set())),
                                  f"tree before close {self.closed_tree} != tree after re-open {now}", "C01")
 
     def rebind(self):
@@ -510,7 +559,7 @@ class World:
         data = [e for s, e in self.side.items() if kind(s) == "D"]
         ents = [e for s, e in self.side.items()]
         if op == "values" and data:
-            data[0].values = np.asarray(data[0].values) + 1.0
+            data[0].values = data[0].values       # re-assigning needs the file
         elif op == "rename" and ents:
             ents[0].name = "zz"
         elif op == "remove" and [e for e in ents if e.allow_delete]:
@@ -532,7 +581,7 @@ class World:
                     continue
                 s = self.slot_of(c.uid)
                 val = self.token(c.values) if kind(s) == "D" or hasattr(c, "association") else 0
-                if c.name == "Visual Parameters":
+                if c.name in SPECIAL:
                     val = "vp"
                 pgs = sorted((g.name, sorted(str(self.slot_of(u)) for u in (g.properties or [])))
                              for g in (getattr(c, "property_groups", None) or []))
@@ -551,7 +600,7 @@ class World:
             par = e.parent
             mem[str(s)] = {"par": self.slot_of(par.uid) if par is not None else -1, "name": e.name,
                            "flag": bool(e.allow_delete),
-                           "val": ("vp" if e.name == "Visual Parameters" else self.token(e.values)) if kind(s) == "D" else 0,
+                           "val": ("vp" if e.name in SPECIAL else self.token(e.values)) if kind(s) == "D" else 0,
                            "meta": _meta_token(e.metadata) if kind(s) in "GO" else 0}
         conts = {0: self.ws.root}
         conts.update({s: e for s, e in ents.items() if kind(s) in "GO"})
@@ -576,6 +625,28 @@ class World:
                 continue
             live_reg.add(str(self.slot_of(uid)))
         return {"mem": mem, "kids": kids, "pg": pgs, "reg_live": sorted(live_reg)}
+
+    def type_rules(self, snap):
+        """C06: all groups / objects of one class share a single type node; a type identifier occurs in one
+        type container only."""
+        per_class = {}
+        for s, e in self.side.items():
+            if kind(s) not in "GO":
+                continue
+            cont = "Groups" if kind(s) == "G" else "Objects"
+            node = snap["nodes"].get(cont, {}).get(str(self.slot2uid.get(s)))
+            if node and node["type"] and node["type"]["owners"]:
+                per_class.setdefault(type(e).__name__, set()).update(u for _, u in node["type"]["owners"])
+        for cls, uids in per_class.items():
+            if len(uids) > 1:
+                return f"entities of class {cls} use {len(uids)} different types {sorted(uids)}"
+        seen = {}
+        for tk, tnodes in snap.get("types", {}).items():
+            for uid in tnodes:
+                if uid in seen:
+                    return f"type identifier {uid} occurs under {seen[uid]} and {tk}"
+                seen[uid] = tk
+        return None
 
     def check_saved_original(self):
         """after save_as the original file must never change again and the workspace must work on the new file"""
@@ -609,7 +680,7 @@ class World:
                 if cont == "Data":
                     ds = node["datasets"].get("Data")
                     val = self.token(ds.get("value")) if ds else None
-                    if node["attrs"].get("Name") == "Visual Parameters":
+                    if node["attrs"].get("Name") in SPECIAL:
                         val = "vp"
                 if s != 0:
                     meta = 0
@@ -661,7 +732,7 @@ def _as_map(m):
 def _val(s, r):
     if kind(s) != "D":
         return 0
-    if r["name"] == "Visual Parameters":
+    if r["name"] in SPECIAL:
         return "vp"            # the XML text of visual parameters is not modelled
     return r["val"] if r["val"] != 0 else None     # token 0 = a data node without values (failed write)
 
@@ -687,7 +758,7 @@ def expect_file(st):
 
 def expect_w2(st):
     w2 = {y: {"on": True, "par": r["par"], "name": r["name"], "flag": r["flag"],
-              "val": (r["val"] if r["val"] != 0 else None) if kind(int(y) % 100) == "D" else 0}
+              "val": ("vp" if r["name"] in SPECIAL else (r["val"] if r["val"] != 0 else None)) if kind(int(y) % 100) == "D" else 0}
           for y, r in _as_map(st.get("w2", {})).items()}
     pgs = {r: {"owner": g["owner"], "name": g["name"], "props": sorted(str(x) for x in g["props"])}
            for r, g in _as_map(st.get("w2pg", {})).items()}
@@ -801,6 +872,11 @@ def replay_path(item):
             if d:
                 bad(f"file:{lab['act']}:{_field(d)}", f"file differs from the specification: {d}")
                 return viol
+            if post["mode"] != "closed":
+                d = w.type_rules(snap)
+                if d:
+                    bad("type-sharing", d, "C06")
+                    return viol
             # ---- second workspace (target of cross-workspace copies)
             if w.ws2 is not None:
                 got2 = w.project_w2()
@@ -846,8 +922,7 @@ def replay_path(item):
                     f"in mode {w.ws.geoh5.mode}", "C11")
                 return viol
             if post["mode"] == "closed" and lab["act"] in ("Close", "Helper"):
-                import h5py
-                n_open = h5py.h5f.get_obj_count(h5py.h5f.OBJ_ALL, h5py.h5f.OBJ_FILE | h5py.h5f.OBJ_GROUP | h5py.h5f.OBJ_DATASET | h5py.h5f.OBJ_ATTR)
+                n_open = _open_ids(w.path)
                 if n_open:
                     bad("open-handles-after-close", f"{n_open} HDF5 identifiers still open after close", "C11")
                 orph = model_orphans(post)
@@ -882,7 +957,8 @@ def replay_path(item):
             tree2 = w.live_tree()
             ws2.close()
             if tree != tree2:
-                bad("reopen-differs-from-live", f"tree before close {tree} != tree of a fresh reader {tree2}", "C01")
+                bad(_reopen_signature(tree, tree2, {int(x) for x in pre.get("dirty", [])}),
+                    f"tree before close {tree} != tree of a fresh reader {tree2}", "C01")
     finally:
         try:
             w.ws.close()
@@ -913,6 +989,36 @@ def replay_path(item):
             pass
         gc.collect()
     return viol
+
+
+def _reopen_signature(before, after, dirty):
+    """the recorded finding: a data entity whose write failed (node without values) keeps its values in memory and
+    comes back without them; everything else is a plain violation of C01"""
+    if set(before) == set(after) and dirty:
+        diff = [k for k in before if before[k] != after[k]]
+        if diff and all(k in {str(d) for d in dirty} for k in diff) and all(
+                before[k][:4] == after[k][:4] and after[k][4] is None and before[k][5:] == after[k][5:] for k in diff):
+            return "failed-add-data-values-lost-on-reopen"
+    return "reopen-differs-from-live"
+
+
+def _open_ids(path):
+    """HDF5 file/group/dataset/attribute identifiers still open on `path` (other files, e.g. the second workspace, and
+    the library's global datatype identifiers do not count)."""
+    import h5py
+    n = 0
+    kinds = h5py.h5f.OBJ_FILE | h5py.h5f.OBJ_GROUP | h5py.h5f.OBJ_DATASET | h5py.h5f.OBJ_ATTR
+    for oid in h5py.h5f.get_obj_ids(h5py.h5f.OBJ_ALL, kinds):
+        try:
+            fid = oid if isinstance(oid, h5py.h5f.FileID) else h5py.h5i.get_file_id(oid)
+            name = h5py.h5f.get_name(fid)
+        except Exception:  # pylint: disable=broad-except
+            continue
+        if isinstance(name, bytes):
+            name = name.decode("utf-8", "replace")
+        if os.path.abspath(name) == os.path.abspath(path):
+            n += 1
+    return n
 
 
 def _purged_groups(st):
